@@ -38,4 +38,5 @@ func Run(id string, r *core.Run) {
 	r.Explanation = e.Meta.Explanation
 	r.Assumptions = append([]string{"go/types + go/ssa model Go semantics faithfully", "the frozen rule tables (anchors, guarded-by relations, validator lists) in /verif/checker/props were confirmed by reading the pinned tree"}, e.Meta.Assumptions...)
 	e.Fn(r)
+	applyErrRows(r, id)
 }
